@@ -109,6 +109,8 @@ def run(ctx):
                      invariants=impl_inv, properties=("Refines",)))
     # the published vectors on the TLA+ definitions (ASSUMEs are evaluated when the module is loaded)
     jobs.append(dict(module="KAT_ZUC", name="KAT_ZUC", constants={}, init_next=("Init", "Next"), workers=1, timeout=900))
+    for j in jobs:                       # small state spaces: keep the JVMs small (several run at once)
+        j.setdefault("heap", "3g")
     ctx.tlc_many(jobs, parallel=6)
     core.cat_files(outs_e, out_e)
     core.cat_files(outs_m, out_m)
